@@ -580,3 +580,55 @@ func (p *Prog) variantsOf(c *Contract) []*Contract {
 	sort.Slice(vs, func(i, j int) bool { return vs[i].Key < vs[j].Key })
 	return vs
 }
+
+// staticModHeapsLib resolves a modifies entry (`x.f`, `elems(x)`) of an assumed contract (library function or
+// interface method) to heap map names, using the parameter and receiver types written in the contract header.
+func (e *Engine) staticModHeapsLib(c *Contract, entry string) []string {
+	entry = strings.TrimSpace(entry)
+	typeOf := func(name string) types.Type {
+		for _, p := range c.Params {
+			if p.Name == name {
+				return e.P.tryResolveType(p.Type, c.Pkg, nil)
+			}
+		}
+		if name == c.RecvName && strings.HasPrefix(c.Key, "(") {
+			if i := strings.Index(c.Key, ")."); i > 0 {
+				return e.P.tryResolveType(c.Key[1:i], c.Pkg, nil)
+			}
+		}
+		return nil
+	}
+	if strings.HasPrefix(entry, "elems(") && strings.HasSuffix(entry, ")") {
+		if t := typeOf(strings.TrimSpace(entry[6 : len(entry)-1])); t != nil {
+			if sl, ok := t.Underlying().(*types.Slice); ok {
+				n, _ := e.arrMapName(sl.Elem())
+				return []string{n}
+			}
+		}
+		return nil
+	}
+	i := strings.Index(entry, ".")
+	if i <= 0 || strings.Contains(entry[i+1:], ".") {
+		return nil
+	}
+	bt := typeOf(entry[:i])
+	if bt == nil {
+		return nil
+	}
+	if h, _, _, ok := e.absFieldOf(bt, entry[i+1:]); ok {
+		return []string{h}
+	}
+	t := bt
+	if pt, ok := t.Underlying().(*types.Pointer); ok {
+		t = pt.Elem()
+	}
+	if st, ok := t.Underlying().(*types.Struct); ok {
+		for k := 0; k < st.NumFields(); k++ {
+			if st.Field(k).Name() == entry[i+1:] {
+				n, _ := e.fieldMapName(t, k)
+				return []string{n}
+			}
+		}
+	}
+	return nil
+}
